@@ -5,6 +5,7 @@ evaluated by the harness on the implementation's own results."""
 import os
 import re
 import sys
+import time
 import vlib
 
 PID = "C19"
@@ -21,6 +22,115 @@ def run_impl(ctx, replay_ops=None):
     rc, log = vlib.sh(["go", "test", "-tags", "verif", "-overlay", ov, "-count=1", "-run", "^TestVerifC19$",
                        "-timeout", "40m", "./internal/"], cwd=vlib.repo(), env=env, timeout=2700)
     return rc, log, out
+
+
+# ---- in-Coq (vm_compute) re-evaluation of a sample of the recorded cases (DESIGN 3.3) ----------
+
+def _z(tok):
+    n = int(tok)
+    return "(%d)" % n if n < 0 else str(n)
+
+
+def _shape_to_coq(sh):
+    """'(lo hi max height L R)' | '.'  ->  Gallina term of type tree"""
+    pos = [0]
+
+    def rec():
+        if sh[pos[0]] == ".":
+            pos[0] += 1
+            return "Leaf"
+        assert sh[pos[0]] == "(", sh[pos[0]:pos[0] + 20]
+        pos[0] += 1
+        nums = []
+        for _ in range(4):
+            j = sh.index(" ", pos[0])
+            nums.append(_z(sh[pos[0]:j]))
+            pos[0] = j + 1
+        l = rec()
+        assert sh[pos[0]] == " "
+        pos[0] += 1
+        r = rec()
+        assert sh[pos[0]] == ")"
+        pos[0] += 1
+        return "(Node %s %s %s %s %s %s)" % (l, nums[0], nums[1], nums[2], nums[3], r)
+    t = rec()
+    assert pos[0] == len(sh), "trailing input in shape"
+    return t
+
+
+def _bits(b):
+    return "[" + ";".join("true" if c == "1" else "false" for c in b) + "]"
+
+
+def case_to_coq(line):
+    parts = line.rstrip("\n").split(";")
+    ops = []
+    for tok in parts[0].split():
+        if tok == "X":
+            ops.append("Clear")
+        else:
+            k, lo, hi = tok.split(":")
+            ops.append("%s %s %s" % ("Insert" if k == "I" else "Delete", _z(lo), _z(hi)))
+    obs = []
+    for st in parts[1].split("/") if parts[1] else []:
+        sz, sh = st.split(",", 1)
+        obs.append("(%s, %s)" % (_z(sz), _shape_to_coq(sh)))
+    q = "None"
+    if len(parts) > 2:
+        f = parts[2].split(":")
+        if f[0] == "Q":
+            lo, hi = int(f[1]), int(f[2])
+            qs = [(a, b) for a in range(lo, hi + 1) for b in range(a, hi + 1)]
+            ib, cb = f[3], f[4]
+        else:
+            vs = [int(x) for x in f[1].split(",")]
+            qs = [(a, b) for a in vs for b in vs]
+            ib, cb = f[2], f[3]
+        q = "Some ([%s], %s, %s)" % (";".join("(%s,%s)" % (_z(str(a)), _z(str(b))) for a, b in qs), _bits(ib), _bits(cb))
+    return "{| c_ops := [%s]; c_obs := [%s]; c_qry := %s |}" % ("; ".join(ops), "; ".join(obs), q)
+
+
+def vm_crosscheck(ctx, lines):
+    """Evaluate `mismatches cases` inside Coq.  Returns (n_cases, mismatching indices or None, log)."""
+    src = os.path.join(ctx.scratch, "c19_cases.v")
+    with open(src, "w") as f:
+        f.write("From Coq Require Import ZArith List Bool.\nFrom Acme.C19 Require Import Model CrossCheck.\n"
+                "Import ListNotations.\nOpen Scope Z_scope.\nDefinition cases : list case := [\n")
+        f.write(";\n".join(case_to_coq(l) for l in lines))
+        f.write("\n].\nDefinition M := Eval vm_compute in mismatches cases.\nPrint M.\n")
+    rc, out = vlib.sh(["coqc", "-R", vlib.COQ, "Acme", "-w", "-notation-overridden", src], cwd=ctx.scratch, timeout=1500)
+    m = re.search(r"M\s*=\s*\[([^\]]*)\]", out)
+    if rc != 0 or not m:
+        return len(lines), None, out[-1500:]
+    idx = [int(x) for x in re.findall(r"\d+", m.group(1))]
+    return len(lines), idx, out[-300:]
+
+
+def sample_lines(path, seed, n, maxlen, n_long=0):
+    rng = vlib.SplitMix64(seed ^ 0xC19)
+    with open(path) as f:
+        allp = []
+        off = 0
+        for line in f:
+            allp.append((off, len(line)))
+            off += len(line)
+    short = [i for i, (_, ln) in enumerate(allp) if ln <= maxlen]
+    longs = [i for i, (_, ln) in enumerate(allp) if maxlen < ln <= 400000]
+    pick = set()
+    # spread over the whole file (all generator streams), seeded
+    if short:
+        for k in range(n):
+            lo = k * len(short) // n
+            hi = max(lo + 1, (k + 1) * len(short) // n)
+            pick.add(short[lo + rng.below(hi - lo)])
+    for _ in range(min(n_long, len(longs))):
+        pick.add(longs[rng.below(len(longs))])
+    out = []
+    with open(path) as f:
+        for i in sorted(pick):
+            f.seek(allp[i][0])
+            out.append(f.readline())
+    return out
 
 
 def parse_summary(path):
@@ -40,7 +150,7 @@ def parse_summary(path):
 
 def run(ctx):
     ctx.level = "proof"
-    status = vlib.proof_status(PID, extra_targets=["C19/Extract.v"])
+    status = vlib.proof_status(PID, extra_targets=["C19/Extract.v", "C19/CrossCheck.v"])
     ctx.proof_gate(status)
     exe = vlib.build_ocaml_driver("c19_driver", os.path.join(vlib.COQ, "extracted"),
                                   os.path.join(ctx.prop_dir, "driver", "c19_driver.ml"), only=["c19_model"])
@@ -77,8 +187,33 @@ def run(ctx):
                       "Properties/C19.v no longer speak about this code: %s" % (mism, first.group(0) if first else mlog[-500:]),
                       {"correspondence": "props/C19 shape/size/query comparison", "driver_output": mlog[:3000]},
                       found_input=False)
+    # vm_compute cross-check: the same recorded observations re-evaluated by the Coq kernel
     if ctx.replay:
-        print(mlog)
+        xl = [l for l in open(out)]
+    elif ctx.tier == "thorough":
+        xl = sample_lines(out, ctx.seed, 4000, 20000, n_long=6)
+    else:
+        xl = sample_lines(out, ctx.seed, 120, 6000)
+    t1 = time.time()
+    xn, xbad, xlog = vm_crosscheck(ctx, xl)
+    ctx.coverage["vm_compute_crosscheck"] = {"cases": xn, "mismatches": (len(xbad) if xbad is not None else "coqc failed"),
+                                             "wall_s": round(time.time() - t1, 2)}
+    if xbad is None:
+        ctx.violation("c19-crosscheck-machinery", "vm_compute cross-check did not run: " + xlog, {"log": xlog}, found_input=False)
+    elif xbad and mism == 0 and not summ["propfail"]:
+        # the extracted model agreed with the implementation but the kernel's evaluation does not:
+        # extraction / driver and the Coq model differ
+        ctx.violation("c19-crosscheck", "Coq (vm_compute) disagrees with the recorded implementation output although the "
+                      "extracted model agrees, on: " + xl[xbad[0]][:300], {"case": xl[xbad[0]][:3000]}, found_input=False)
+    if ctx.replay:
+        print("---- replay of [%s] on %s ----" % (replay_ops, vlib.repo()))
+        for kind, d in sorted(summ["propfail"].items()):
+            print("property predicate FAILED on the implementation (%s): %s" % (kind, d))
+        if not summ["propfail"]:
+            print("property predicates on the implementation: all hold")
+        rc3, vlog = vlib.sh([exe, out, "-v"], timeout=600)
+        print(vlog)
+        print("Coq vm_compute on the recorded observations: %s" % ("agrees" if xbad == [] else "DISAGREES on case(s) %s" % xbad))
     ctx.coverage.update({
         "evaluations": summ.get("cases", 0),
         "steps_observed": summ.get("steps", 0),
